@@ -31,23 +31,17 @@ Theorem C11_provenance_two :
 Proof. exact provenance_two. Qed.
 Print Assumptions C11_provenance_two.
 
-(* The samples handed out after a blockin lie inside that region, for all eos
-   flags and sequence numbers and every granule position that is not absurdly
-   far (2^30) below the running sample count - in particular every
-   non-negative one.  (Below that the C code's int truncation of pcm_returned
-   strikes; the faithful model has it, and C11_trim_any_granule is what
-   remains true then.) *)
+(* The samples handed out after a blockin lie inside that region - for
+   arbitrary granule positions, eos flags and sequence numbers. *)
 Theorem C11_returned_range_in_region :
   forall c s b s',
-    (hs c = 0 \/ hs c = 1) -> SizesOK c -> k_pcm b = true -> half c true < 16384 ->
-    count_after c s b - k_gran b < 1073741824 ->
-    dec_blockin c s b = (0, s') ->
+    (hs c = 0 \/ hs c = 1) -> SizesOK c -> k_pcm b = true -> dec_blockin c s b = (0, s') ->
     let prevC := if d_centerW s =? 0 then half c true else 0 in
     let thisC := if d_centerW s =? 0 then 0 else half c true in
     if d_ret s =? -1 then d_ret s' = thisC /\ d_cur s' = thisC
     else prevC <= d_ret s' /\ d_ret s' <= d_cur s' /\
          d_cur s' <= prevC + Z.shiftr (bsz c (d_W s) / 4 + bsz c (k_W b) / 4) (hs c).
-Proof. exact blockin_returned_range. Qed.
+Proof. exact blockin_returned_range_all. Qed.
 Print Assumptions C11_returned_range_in_region.
 
 (* For ARBITRARY granule positions: never more than blockin produced, and the
